@@ -257,8 +257,8 @@ def run(ctx):
         with simlib.quiet():
             for parents, counts in shapes:
                 mods.append(({"parents": parents, "counts": counts}, jx.Cell([jx.Branch([comp] * n) for n in counts], parents=parents)))
-            for cells in ([([-1, 0], [2, 1]), ([-1], [1]), ([-1, 0, 0], [1, 2, 2])], [([-1], [1]), ([-1], [1])],
-                          [([-1, 0, 0, 1], [1, 1, 2, 1]), ([-1, 0], [3, 1]), ([-1], [2])]):
+            for cells in ([([-1, 0], [2, 1]), ([-1], [2]), ([-1, 0, 0], [2, 2, 2])], [([-1], [1]), ([-1], [1])],
+                          [([-1, 0, 0, 1], [2, 1, 2, 1]), ([-1, 0], [2, 1]), ([-1], [2])], [([-1, 0], [2, 1]), ([-1], [1])]):
                 mods.append(({"network_of": cells}, jx.Network([jx.Cell([jx.Branch([comp] * n) for n in c], parents=q) for q, c in cells])))
         exprs, metas = [], []
         for case, m in mods:
@@ -269,7 +269,10 @@ def run(ctx):
             except AssertionError as ex:
                 viol.append(dict(case, kind="comp_edges of the module are not the edges of a branched cable", error=str(ex)))
                 continue
-            reals = {sv: hineslib.run_real(m, st, g, v0, vt, ct, dtq, sv) for sv in ("jaxley.thomas", "jaxley.stone")}
+            try:
+                reals = {sv: hineslib.run_real(m, st, g, v0, vt, ct, dtq, sv) for sv in ("jaxley.thomas", "jaxley.stone")}
+            except (AssertionError, NotImplementedError, ValueError):
+                continue        # the jaxley backends refuse this structure (allowed by the property)
             exprs += [hineslib.coq_step_expr(st, g, v0, vt, ct, dtq), hineslib.coq_step_expr(st, g, v0, vt, ct, dtq, fn="arr_divisors_okQ"), chk]
             metas.append((case, st, reals, dict(g=[float(x) for x in g], v=[float(x) for x in v0], vt=[float(x) for x in vt], ct=[float(x) for x in ct], dt=float(dtq))))
         outs = coqeval.coq_eval(["CableQ", "HinesArr", "HinesArrQ", "HinesCheck"], exprs, shard=3)
